@@ -14,8 +14,10 @@
 (*                            iff the table says executing m takes it (on  *)
 (*                            a sub-object's lock only if the table says   *)
 (*                            so); once released, the call came back       *)
-(*   Outcome t m out then     m called on a populated / empty instance:    *)
-(*                            returned | panicked; NO action for timeout.  *)
+(*   Outcome t m on out then  m called on an instance in state on          *)
+(*                            (populated first; then empty, growing, full  *)
+(*                            where the call can be made): returned |      *)
+(*                            panicked; NO action for timeout.             *)
 (*                            then = outcome of a lock-taking call made    *)
 (*                            afterwards (a method that kept the lock)     *)
 (*   Ran / Pair               [race-detector build] a concurrent program / *)
@@ -62,7 +64,8 @@ TraceFootprint ==
                     ELSE e.blocked => Takes(e.t, e.m, e.p)     \* a sub-object's: the flattened table
                                                                \* says "may take" (short-circuits, branches)
   /\ UNCHANGED <<ms, ph>>
-\* each method on a populated instance, then (where it can be called) on an empty one
+\* each method on a populated instance, then (where it can be called) in the other states:
+\* empty; growing (fresh keys across the re-hash thresholds); full (bound in force and reached)
 TraceOutcome ==
   /\ At("Outcome") /\ KnownType /\ ph = "open" /\ ms # <<>>
   /\ Has(e, "m") /\ Has(e, "on") /\ Has(e, "out")
